@@ -116,7 +116,10 @@ class Simulation:
         self._events_cancelled: int = 0
 
         # Pre-run scheduled events — replayed on reset()
-        self._pre_run_event_specs: list[tuple[Instant, str, object, bool, dict]] = []
+        self._pre_run_event_specs: list[tuple[Instant, str, object, bool, dict, Event]] = []
+        # Positions in _pre_run_event_specs of events that were already cancelled
+        # when the first run() started (captured once; reset() re-applies them).
+        self._pre_run_cancelled: set[int] | None = None
 
         # Control surface — lazy-created on first access
         self._control = None
@@ -211,12 +214,15 @@ class Simulation:
         for e in items:
             meta = e.context.get("metadata", {}) if e.context else {}
             self._pre_run_event_specs.append(
-                (e.time, e.event_type, e.target, e.daemon, dict(meta))
+                (e.time, e.event_type, e.target, e.daemon, dict(meta), e)
             )
 
     def _replay_pre_run_events(self) -> None:
         """Recreate and push all events that were scheduled before the first run."""
-        for time, event_type, target, daemon, meta in self._pre_run_event_specs:
+        cancelled = self._pre_run_cancelled or set()
+        for i, (time, event_type, target, daemon, meta, _orig) in enumerate(
+            self._pre_run_event_specs
+        ):
             ctx = {"metadata": dict(meta)} if meta else None
             fresh = Event(
                 time=time,
@@ -225,6 +231,8 @@ class Simulation:
                 daemon=daemon,
                 context=ctx,
             )
+            if i in cancelled:
+                fresh.cancel()
             self._event_heap.push(fresh)
 
     def run(self) -> SimulationSummary:
@@ -259,6 +267,10 @@ class Simulation:
             self._is_running = True
             self._event_heap.set_current_time(self._current_time)
             self._event_heap.seed_event_counter()
+            if self._pre_run_cancelled is None:
+                self._pre_run_cancelled = {
+                    i for i, spec in enumerate(self._pre_run_event_specs) if spec[5].cancelled
+                }
 
             logger.info(
                 "Simulation starting at %r with %d event(s) in heap",
